@@ -112,7 +112,14 @@ impl LuaValue {
     /// possible and return the same value otherwise.
     pub fn string_coercion(self) -> Self {
         match &self {
-            Self::Number(value) => Some(Self::from(value.to_string())),
+            // only fold when Lua prints the number in plain decimal notation, as Rust does
+            // (Lua switches to an exponent outside of this range, e.g. `1e+100`)
+            Self::Number(value)
+                if value.is_finite()
+                    && (*value == 0.0 || (1e-4..1e14).contains(&value.abs())) =>
+            {
+                Some(Self::from(value.to_string()))
+            }
             _ => None,
         }
         .unwrap_or(self)
